@@ -583,3 +583,45 @@ def hist_args(st):
             a = mn[k_ + '_arg']
             kw[k_] = a if isinstance(a, str) else (list(a) if isinstance(a, list) else np.array(a))
     return dict(st['stiff']), b, kw
+
+
+# ----------------------------------------------------------------------------
+# presentations of the REFERENCE orientation (transform = identity) and of a rotation that maps the stiffness onto itself:
+# every way the caller can say "no rotation" - nothing, an explicit identity as array / list / un-normalised axes, Miller
+# indices [001]/(010) with m='x', n='y' in a cell whose axes are the Cartesian ones - and a symmetry operation of the crystal.
+# In all of them the rotated stiffness has the numbers of the stiffness handed in.
+IDENT_CLASSES = ['none', 'transform-eye', 'transform-eye-list', 'axes-scaled-eye', 'transform-eye-int', 'miller-cubic-unit', 'miller-cubic-a',
+                 'miller-orthorhombic', 'symmetry-rotation']
+_SYM_ROT = [np.round(_rot(a_, d_), 12) + 0.0 for a_, d_ in ((Z, 90), (Z, 180), (X, 90), (Y, -90), (np.array([1.0, 1.0, 1.0]), 120))]
+
+
+def identity_presentation(rng, cls, k=0):
+    """-> dict(okw = orientation keywords for atomman (box as dict(ctor=...)), T = rotation crystal -> dislocation frame,
+    vects = cell vectors or None (then Burgers vectors are Cartesian), mn_fixed = True when m='x', n='y' is part of the presentation,
+    stiff = stiffness class the presentation needs or None)."""
+    if cls == 'none':
+        return dict(okw={}, T=np.eye(3), vects=None, mn_fixed=False, stiff=None)
+    if cls == 'transform-eye':
+        return dict(okw=dict(transform=np.eye(3)), T=np.eye(3), vects=None, mn_fixed=False, stiff=None)
+    if cls == 'transform-eye-list':
+        return dict(okw=dict(transform=[[1.0, 0.0, 0.0], [0.0, 1.0, 0.0], [0.0, 0.0, 1.0]]), T=np.eye(3), vects=None, mn_fixed=False, stiff=None)
+    if cls == 'transform-eye-int':
+        return dict(okw=dict(transform=np.eye(3, dtype=int)), T=np.eye(3), vects=None, mn_fixed=False, stiff=None)
+    if cls == 'axes-scaled-eye':
+        return dict(okw=dict(axes=np.diag(rng.uniform(0.3, 5.0, 3))), T=np.eye(3), vects=None, mn_fixed=False, stiff=None)
+    if cls.startswith('miller'):
+        a = 1.0 if cls == 'miller-cubic-unit' else float(rng.uniform(2.5, 4.5))
+        if cls == 'miller-orthorhombic':
+            b, c = a * rng.uniform(1.2, 1.6), a * rng.uniform(1.65, 2.3)
+            ctor = ('orthorhombic', dict(a=a, b=float(b), c=float(c)))
+            vects = np.diag([a, b, c])
+        else:
+            ctor = ('cubic', dict(a=a))
+            vects = a * np.eye(3)
+        s = int(rng.integers(1, 4))                       # [00s] / (0s0): un-reduced indices denote the same line and plane
+        return dict(okw=dict(ξ_uvw=np.array([0, 0, s]), slip_hkl=np.array([0, s, 0]), box=dict(ctor=ctor)), T=np.eye(3), vects=vects,
+                    mn_fixed=True, stiff=None)
+    if cls == 'symmetry-rotation':
+        T = _SYM_ROT[k % len(_SYM_ROT)]
+        return dict(okw=dict(transform=T.copy()), T=T.copy(), vects=None, mn_fixed=False, stiff='cubic')
+    raise ValueError(cls)
